@@ -28,27 +28,27 @@ type Part struct {
 
 // Op is one step of a scenario. Only the fields relevant for its kind are set.
 type Op struct {
-	K      string `json:"k"`
-	DS     string `json:"ds,omitempty"`
-	DS2    string `json:"ds2,omitempty"`
-	Ents   []Ent  `json:"ents,omitempty"`
-	Parts  []Part `json:"parts,omitempty"`
-	Sleep  int64  `json:"sleep,omitempty"` // ns slept on the fake clock before the op
-	Reader int    `json:"reader,omitempty"`
-	Limit  int    `json:"limit,omitempty"`
-	Latest bool   `json:"latest,omitempty"`
-	Since  uint64 `json:"since,omitempty"`
-	N      int    `json:"n,omitempty"`
-	S      string `json:"s,omitempty"`
-	A      []any  `json:"a,omitempty"`
-	Task   int    `json:"task,omitempty"`
+	K      string         `json:"k"`
+	DS     string         `json:"ds,omitempty"`
+	DS2    string         `json:"ds2,omitempty"`
+	Ents   []Ent          `json:"ents,omitempty"`
+	Parts  []Part         `json:"parts,omitempty"`
+	Sleep  int64          `json:"sleep,omitempty"` // ns slept on the fake clock before the op
+	Reader int            `json:"reader,omitempty"`
+	Limit  int            `json:"limit,omitempty"`
+	Latest bool           `json:"latest,omitempty"`
+	Since  uint64         `json:"since,omitempty"`
+	N      int            `json:"n,omitempty"`
+	S      string         `json:"s,omitempty"`
+	A      []any          `json:"a,omitempty"`
+	Task   int            `json:"task,omitempty"`
 	M      map[string]any `json:"m,omitempty"`
 }
 
 type Fault struct {
-	At   string `json:"at"`             // hook point name
-	Hit  int    `json:"hit"`            // n-th arrival (1-based)
-	Kind string `json:"kind"`           // crash | error | pause
+	At   string `json:"at"`   // hook point name
+	Hit  int    `json:"hit"`  // n-th arrival (1-based)
+	Kind string `json:"kind"` // crash | error | pause
 	Arg  int64  `json:"arg,omitempty"`
 }
 
@@ -76,20 +76,20 @@ func (s *Scenario) Knob(name string, def int64) int64 {
 
 // Verdict is what a worker prints for every job.
 type Verdict struct {
-	Job       int              `json:"job"`
-	Verdict   string           `json:"verdict"` // ok | violation | invalid | error
-	Property  string           `json:"property,omitempty"`
-	Profile   string           `json:"profile,omitempty"`
-	Oracle    string           `json:"oracle,omitempty"`
-	Signature string           `json:"signature,omitempty"`
-	Message   string           `json:"message,omitempty"`
-	Step      int              `json:"step,omitempty"`
-	Seed      uint64           `json:"seed"`
-	Stats     map[string]int64 `json:"stats,omitempty"`
-	TraceHash string           `json:"trace_hash,omitempty"`
-	Nontrivial bool            `json:"nontrivial"`
-	SimNS     int64            `json:"sim_ns,omitempty"`
-	Scenario  *Scenario        `json:"scenario,omitempty"`
+	Job        int              `json:"job"`
+	Verdict    string           `json:"verdict"` // ok | violation | invalid | error
+	Property   string           `json:"property,omitempty"`
+	Profile    string           `json:"profile,omitempty"`
+	Oracle     string           `json:"oracle,omitempty"`
+	Signature  string           `json:"signature,omitempty"`
+	Message    string           `json:"message,omitempty"`
+	Step       int              `json:"step,omitempty"`
+	Seed       uint64           `json:"seed"`
+	Stats      map[string]int64 `json:"stats,omitempty"`
+	TraceHash  string           `json:"trace_hash,omitempty"`
+	Nontrivial bool             `json:"nontrivial"`
+	SimNS      int64            `json:"sim_ns,omitempty"`
+	Scenario   *Scenario        `json:"scenario,omitempty"`
 }
 
 // Violation is returned by oracles.
